@@ -30,6 +30,16 @@ theorem block_order : Facts.c20_block_order =
 /-- `HashConsensusParams` hashes Block.MaxBytes and Block.MaxGas only (model: `Params.hash`) -/
 theorem paramsHash_only_block : Facts.c20_paramsHash_only_block = true := by decide
 
+/-- `Block` / `BlockByHash` compare the answer with the request (model: `BlockReq.matches`) -/
+theorem block_request_guard :
+    Facts.c20_block_request_guard = "height != nil && res.Block.Height != *height" := by decide
+theorem blockByHash_request_guard :
+    Facts.c20_blockByHash_request_guard = "!bytes.Equal(res.BlockID.Hash, hash)" := by decide
+/-- `TxSearch` validates every relayed proof against the verified header (model: `verifyTxSearch`) -/
+theorem txSearch_verifies : Facts.c20_txSearch_verifies = true := by decide
+/-- `ValueOp.Run` refuses a proof that computes no root (model: `runOp` returns `computeRoot`) -/
+theorem valueOp_nil_root : Facts.c20_valueOp_nil_root = "rootHash == nil" := by decide
+
 /-- the constants the model takes from the source -/
 theorem constants :
     blockProtocol = 11 ∧ maxChainIDLen = 50 ∧ addressSize = 20 ∧ maxBlockSizeBytes = 104857600 ∧
